@@ -148,7 +148,7 @@ class CodeObject:
         return variable
 
     def define(self, obj, expression, no_inline=False, force_inline=False):
-        if self.max_usage_num[obj] > 1:
+        if self.max_usage_num[obj] > 1 and not force_inline:
             no_inline = True
 
         if no_inline and force_inline:
@@ -212,6 +212,13 @@ def _debug_value_to_code(x):
         return x.to_code(_debug_value_to_code)
     else:
         raise ValueError(f"Got {x} of type {type(x)}.")
+
+
+def _is_module_attribute(x):
+    # Is x an imported module or an attribute chain that starts at one?
+    while isinstance(x, tracer.Tracer) and isinstance(x.origin, tracer.signature.python.GetAttr):
+        x = x.origin.obj
+    return isinstance(x, tracer.Tracer) and isinstance(x.origin, tracer.signature.python.Import)
 
 
 def compile(object, return_code=False):
@@ -330,7 +337,12 @@ def compile(object, return_code=False):
                 def to_code(value_to_code):
                     return f"getattr({value_to_code(obj)}, {value_to_code(key)})"
 
-            code.define(origin.output, Inlined(to_code, inputs=[obj, key], block=code.get_block_for(origin.output)))
+            # Attributes of imported modules (e.g. "np.reshape", "np.add.at") are constant lookups: always inline them
+            code.define(
+                origin.output,
+                Inlined(to_code, inputs=[obj, key], block=code.get_block_for(origin.output)),
+                force_inline=_is_module_attribute(origin.obj),
+            )
 
         elif isinstance(origin, tracer.signature.python.GetItem):
             # ################## __getitem__ ##################
@@ -418,7 +430,7 @@ def compile(object, return_code=False):
             # ################## builtin ##################
             name = origin.name
             to_code = lambda value_to_code: name  # TODO: check if name is in scope. Option 1: prevent this. Option 2: import builtins
-            code.define(origin.output, Inlined(to_code, inputs=[], block=code.get_block_for(origin.output)))
+            code.define(origin.output, Inlined(to_code, inputs=[], block=code.get_block_for(origin.output)), force_inline=True)
 
         elif isinstance(origin, tracer.Cast):
             # ################## tracer.cast ##################
